@@ -1,6 +1,7 @@
 import Texel.Proofs.Chain
 import Texel.Proofs.Vertices
 import Texel.Proofs.SplitInv
+import Texel.Proofs.HitCount
 import Texel.Model.RingF
 /-! # C18 — moderately collapsing polygons are reduced without inventing geometry   (partial)
 
@@ -62,6 +63,26 @@ theorem C18_split_preserves_area (ring : List P) (isOuter : Bool) (isHit : P →
     ∃ rings : List (List P), splitRingF ring isOuter isHit = .ok (classify isOuter rings) ∧ (∀ r ∈ rings, r.Nodup) ∧
       (rings.map closedSum).sum = closedSum ring :=
   splitRingF_area ring isOuter isHit hne hflags
+
+/-- **the repeated-vertex flags are exact**: for a ring of a polygon inside the grid, a pixel is flagged by `checkPointHits` (hit at least
+twice while the ring was routed) if and only if the routed chain of the ring — its closing duplicate removed, at least two pixels long —
+passes through it at least twice. This is what `splitRing` relies on to cut the ring exactly at its repeated vertices. -/
+theorem C18_flags_exact (g : Grid) (hres : 0 < g.res) (rings : List (List Pt)) (addrs : List Quad)
+    (hins : insertAll g rings = some addrs) (v0 : Pt) (vs : List Pt) (hring : ∀ v ∈ v0 :: vs, v ∈ rings.flatten) (l : Nat) (hl : l ≤ g.depth)
+    (chain : List P) (hj : joinChain (routeRing g (hotOf g addrs) l (v0 :: vs)) = some chain) (hlen : 2 ≤ chain.length) (p : P) :
+    isHitF (ringHits (routeRing g (hotOf g addrs) l (v0 :: vs))) p = true ↔
+      2 ≤ (if chain.length > 1 && chain.head? == chain.getLast? then chain.dropLast else chain).count p := by
+  obtain ⟨hlk, hcl⟩ := routeRing_linked g hres rings addrs hins v0 vs hring l hl
+  have hhead : chain.head? = some (pixOf g l v0) := by
+    cases hr : routeRing g (hotOf g addrs) l (v0 :: vs) with
+    | nil => rw [hr] at hj; unfold joinChain at hj; simp at hj; subst hj; simp at hlen
+    | cons r rs =>
+      rw [hr] at hj hlk
+      obtain ⟨hne, _, hrh, _⟩ := hlk
+      rw [joinChain_head r rs chain hne hj, hrh]
+  rw [chain_count_eq_hits _ (pixOf g l v0) hlk hcl chain hj hlen hhead p]
+  unfold isHitF
+  simp
 
 -- non-vacuity: two triangles meeting in the pinch point (1,1), which is flagged: the ring is cut there into its two lobes
 #guard (splitRingF [(0, 0), (1, 1), (2, 0), (2, 2), (1, 1), (0, 2)] true (fun p => p == (1, 1))).toOption.map
